@@ -301,6 +301,8 @@ def quote(s, mark='"'):
     :returns: Quoted string
     :rtype: ```str```
     """
+    if isinstance(s, (bool, int, float, complex)):
+        return s  # Numbers are never quoted
     s = (
         s
         if isinstance(s, (str, type(None)))
